@@ -218,10 +218,10 @@ func c11Child() {
 	}
 	done := make(chan struct{})
 	go func() { cwg.Wait(); close(done) }()
-	select {
-	case <-done:
+	// workers keep calling meanwhile: the budget is what they may burn while Close drains the calls in flight
+	if waitDone(done, 30*time.Second, 480*time.Second) {
 		logL("closed-in-time yes")
-	case <-time.After(30 * time.Second):
+	} else {
 		logL("closed-in-time no")
 		buf := make([]byte, 1<<20)
 		n := runtime.Stack(buf, true)
@@ -233,10 +233,9 @@ func c11Child() {
 	close(stopAll)
 	wdone := make(chan struct{})
 	go func() { wg.Wait(); close(wdone) }()
-	select {
-	case <-wdone:
+	if waitDone(wdone, 20*time.Second, 160*time.Second) {
 		logL("calls-returned yes")
-	case <-time.After(20 * time.Second):
+	} else {
 		logL("calls-returned no")
 		buf := make([]byte, 1<<20)
 		n := runtime.Stack(buf, true)
@@ -286,10 +285,8 @@ func runC11(t *Trace, r *Rng, tier string, _ []string) {
 		must(cmd.Start())
 		done := make(chan error, 1)
 		go func() { done <- cmd.Wait() }()
-		var werr error
-		select {
-		case werr = <-done:
-		case <-time.After(90 * time.Second):
+		werr, finished := waitChild(done, cmd.Process.Pid, 90*time.Second, 1500*time.Second)
+		if !finished {
 			_ = cmd.Process.Signal(syscall.SIGQUIT)
 			time.Sleep(2 * time.Second)
 			_ = cmd.Process.Kill()
@@ -368,6 +365,7 @@ func c11Cancel(t *Trace, r *Rng, tier string) {
 				time.AfterFunc(d, cancel)
 			}
 			st := time.Now()
+			cpuSt, _ := procCPU(os.Getpid())
 			_, err := idx.SearchInContext(ctx, bleve.NewSearchRequestOptions(bleve.NewWildcardQuery("*"), 10, 0, false))
 			el := time.Since(st)
 			cancel()
@@ -376,7 +374,12 @@ func c11Cancel(t *Trace, r *Rng, tier string) {
 			if res != "ok" && res != "ctx" {
 				verdict = "unexpected-error:" + res
 			} else if el > 5*time.Second {
-				verdict = fmt.Sprintf("returned-after-%v", el)
+				// late on the wall clock: a defect only if the call sat blocked or kept computing all that
+				// time, not if the machine gave this process no processor
+				cpuEn, ok := procCPU(os.Getpid())
+				if used := cpuEn - cpuSt; !ok || used < el/50 || used > el/2 {
+					verdict = fmt.Sprintf("returned-after-%v", el)
+				}
 			}
 			t.Emit(engine+"/cancel-"+res, true, "echo ok", verdict)
 			// still usable
